@@ -60,6 +60,26 @@ fn round_trip(rng: &mut Rng, who: usize) {
     }
 }
 
+/// A "batch" as real callers produce it: several values that share the same
+/// calendar day (rows of one load, log records), different per thread, so that
+/// anything the library remembers from one serialization to the next is
+/// exercised while other threads do the same with other days.
+fn same_day_batch(rng: &mut Rng, who: usize, rounds: usize) {
+    const DAY: i64 = 86_400_000_000;
+    let home_day = rng.range_i64(-719_162, 2_932_896);
+    for r in 0..rounds {
+        let ts = Timestamp::try_from_usecs(home_day * DAY + rng.range_i64(0, DAY - 1)).unwrap();
+        let s = serde_json::to_string(&ts).unwrap();
+        assert_eq!(serde_json::from_str::<Timestamp>(&s).unwrap(), ts, "thread {who} round {r}: Timestamp json {s}");
+        let od = OracleDate::try_from_usecs(home_day * DAY + rng.range_i64(0, 86_399) * 1_000_000).unwrap();
+        let s = serde_json::to_string(&od).unwrap();
+        assert_eq!(serde_json::from_str::<OracleDate>(&s).unwrap(), od, "thread {who} round {r}: OracleDate json {s}");
+        let d = Date::try_from_days(home_day as i32).unwrap();
+        let s = serde_json::to_string(&d).unwrap();
+        assert_eq!(serde_json::from_str::<Date>(&s).unwrap(), d, "thread {who} round {r}: Date json {s}");
+    }
+}
+
 fn main() {
     let args: Vec<String> = std::env::args().collect();
     let workload: u64 = args.get(1).and_then(|s| s.parse().ok()).unwrap_or(1);
@@ -75,6 +95,7 @@ fn main() {
             })));
             let mut rng = Rng::for_run(workload, 0xC15, who as u64);
             round_trip(&mut rng, who);
+            same_day_batch(&mut rng, who, 3);
         }));
     }
     for h in handles {
